@@ -548,6 +548,36 @@ def gen_real_value(rng, c, pool_sizes):
 
 REAL_POINTS = {"w": [0.5, -1.0], "x": [2.0, -0.5], "y": [1.5, 0.0]}
 
+KF_CAPTURE = "KF-cat-onepart-capture"
+
+
+def cat_capture_region(f_syn, sig_syn, loose=False):
+    """Region of KF-cat-onepart-capture: some Cat node of f has an input k (other than its own name) that sigma
+    substitutes by a value mentioning the Cat's own name.  The rebuilt Cat is then ill-formed (`name in part.inputs`);
+    Cat.__init__ asserts that, the eager rules that fire before the constructor do not."""
+    seen = set()
+    stack = [f_syn]
+    while stack:
+        t = stack.pop()
+        if id(t) in seen:
+            continue
+        seen.add(id(t))
+        if isinstance(t, Cat):
+            for k, v in sig_syn:
+                if k != t.name and (loose or k in t.inputs) and t.name in v.inputs:
+                    return True
+        if isinstance(t, Funsor):
+            for c in getattr(t, "_ast_values", ()):
+                if isinstance(c, Funsor):
+                    stack.append(c)
+                elif isinstance(c, tuple):
+                    for c2 in c:
+                        if isinstance(c2, Funsor):
+                            stack.append(c2)
+                        elif isinstance(c2, tuple):
+                            stack.extend(c3 for c3 in c2 if isinstance(c3, Funsor))
+    return False
+
 
 def real_envs(names):
     names = sorted(names)
@@ -566,17 +596,23 @@ def syntax_inputs(f):
 def value_over(r, ins, renv):
     """Evaluate an implementation result to (shape, values) cells over `ins` with real inputs bound by renv.
     Returns ("value", cells) | ("lazy", term) | raises KeyError/ValueError for foreign inputs."""
-    if renv:
-        sub = {k: Number(v) for k, v in renv.items() if k in r.inputs}
-        if sub:
-            r = r(**sub)
-    if not isinstance(r, (Tensor, Number)):
-        with eager:
-            r2 = reinterpret(r)
-        if isinstance(r2, (Tensor, Number)):
-            r = r2
-        else:
-            return ("lazy", r)
+    r0 = r
+    try:
+        if renv:
+            sub = {k: Number(v) for k, v in renv.items() if k in r.inputs}
+            if sub:
+                r = r(**sub)
+        if not isinstance(r, (Tensor, Number)):
+            with eager:
+                r2 = reinterpret(r)
+            if isinstance(r2, (Tensor, Number)):
+                r = r2
+            else:
+                return ("lazy", r)
+    except DECLINE:
+        # evaluating the (lazy) result further declined — that is not the substitution's business: fall back to
+        # the meaning of the returned term itself (Lean `denote` of its wire form)
+        return ("lazy", r0)
     return ("value", ser.impl_values(r, ins))
 
 
@@ -660,6 +696,11 @@ def run_s2(ctx, n, use_lean=True):
             continue
         interp = rng.choice(["eager", "eager", "lazy", "reflect"])
         mode = {"eager": "call", "lazy": rng.choice(["call", "call-under-lazy"]), "reflect": "Subs+reinterpret"}[interp]
+        if cat_capture_region(f_syn, sig_syn):
+            # dedicated stream of the open finding: never part of the clean stream
+            ctx.count("S2:cat-capture-region")
+            s2_capture_case(ctx, recipe, sigma, interp, mode, f_wire, sig_wire, exp, ins, renvs)
+            continue
         py = s2_python(recipe, sigma, foreign, interp, mode)
         wit = {"stream": "S2", "f": describe2(recipe), "sigma": [(k, describe2(v)) for k, v in sigma],
                "foreign": [(k, describe2(v)) for k, v in foreign], "built_under": interp, "mode": mode}
@@ -681,7 +722,7 @@ def run_s2(ctx, n, use_lean=True):
             meta.append(("subst", wit, py, None, None, ins, renvs[0], exp, kinds, interp, case_no))
         # ---- chained vs fused: f(a)(b) with b over the inputs of f(a)
         if status == "value" and rng.random() < 0.35:
-            s2_chain(ctx, rng, recipe, sigma, interp, f_wire, sig_wire, exp, pool_sizes, reqs, meta, wit)
+            s2_chain(ctx, rng, recipe, sigma, interp, f_wire, sig_wire, exp, pool_sizes, reqs, meta, wit, f_syn)
     if not reqs:
         return
     answers = ctx.driver.ask(reqs) if use_lean else []
@@ -756,6 +797,33 @@ def run_s2(ctx, n, use_lean=True):
             if ok_all:
                 ctx.count("S2:chain:ok")
                 ctx.case(nontrivial_key=("chain", repr(wit)))
+
+
+def s2_capture_case(ctx, recipe, sigma, interp, mode, f_wire, sig_wire, exp, ins, renvs):
+    """A case inside the region of KF-cat-onepart-capture: a decline is fine; a value is compared and a wrong one is
+    recorded for the dedicated stream (reported once at the end of correspond)."""
+    status, r, _ = s2_run_impl(recipe, sigma, [], interp, mode)
+    bucket = ctx.extra.setdefault("_capture", {"cases": 0, "wrong": []})
+    bucket["cases"] += 1
+    if status != "value":
+        return
+    ans = ctx.driver.ask1(f"C04 denote {sx(['subs', f_wire, sig_wire])} {sx(ser.ins_wire(ins))} {sx(ser.env_wire(renvs[0]))}")
+    model = ser.parse_table(ans)
+    if model is None or any(c is None for c in model):
+        return
+    wrong = any(k not in exp or exp[k] != d for k, d in r.inputs.items())
+    if not wrong:
+        try:
+            st, cells = value_over(r, ins, renvs[0])
+            wrong = st == "value" and cells is not None and not ser.tables_equal(cells, model)[0]
+        except (KeyError, ValueError):
+            wrong = True
+        except DECLINE:
+            wrong = False
+    if wrong:
+        bucket["wrong"].append({"f": describe2(recipe), "sigma": [(k, describe2(v)) for k, v in sigma],
+                                "built_under": interp, "mode": mode,
+                                "python": s2_python(recipe, sigma, [], interp, mode)})
 
 
 def _tables_same(a, b):
@@ -868,7 +936,7 @@ def s2_compare(ctx, wit, py, r, ins, renv, exp, model, kinds, interp):
              if any(k != "num" for k in kinds) else None)
 
 
-def s2_chain(ctx, rng, recipe, sigma, interp, f_wire, sig_wire, exp, pool_sizes, reqs, meta, wit0):
+def s2_chain(ctx, rng, recipe, sigma, interp, f_wire, sig_wire, exp, pool_sizes, reqs, meta, wit0, f_syn):
     """f(a)(b) vs f(fused) vs Lean denote (subs (subs f a) b)."""
     ints = [(k, int(d.size)) for k, d in exp.items() if d.dtype != "real"]
     if not ints:
@@ -884,6 +952,9 @@ def s2_chain(ctx, rng, recipe, sigma, interp, f_wire, sig_wire, exp, pool_sizes,
             b_syn = [(k, build2(v)) for k, v in b]
         b_wire = [[Q(k), ser.to_wire(v)] for k, v in b_syn]
     except (ser.Unsupported,) + DECLINE:
+        return
+    if cat_capture_region(f_syn, b_syn, loose=True):
+        ctx.count("S2:chain:cat-capture-region-skipped")
         return
     exp2 = OrderedDict((k, d) for k, d in exp.items() if k not in dict(b))
     for k, v in b_syn:
@@ -1257,28 +1328,67 @@ def run_rewritten(ctx):
             n_ok += 1
             ctx.count(f"S4:{cls}:parts={nparts}:ok")
             ctx.case(nontrivial_key=("S4", cls, size, nparts, own_val, other_val))
-    # dedicated stream of KF-cat-onepart-capture
-    bad = known_seen["bad"]
+    bucket = ctx.extra.setdefault("_capture", {"cases": 0, "wrong": []})
+    bucket["cases"] += known_seen["cases"]
+    bucket["wrong"] += [{"python": KF_CAPTURE_PY, **w} for w in known_seen["bad"]]
+
+
+def report_capture(ctx):
+    """Dedicated stream of KF-cat-onepart-capture (S4 one-part Cats + the S2 cases inside the region)."""
+    bucket = ctx.extra.pop("_capture", {"cases": 0, "wrong": []})
+    # two fixed probes so that the dedicated stream does not depend on the random data
+    g = Tensor(np.array([[4., 5.], [1., 3.]]), OrderedDict(i=Bint[2], k=Bint[2]))
+    with lazy:
+        c1 = Cat("i", (g + Variable("x", Real),))
+        c2 = Cat("i", (Tensor(np.array([0.]), OrderedDict(i=Bint[1])),
+                       Tensor(np.array([[5., -2.]]), OrderedDict(i=Bint[1], j=Bint[2]))))
+    for label, thunk, ok in (
+            ("one-part Cat('i', (g(i,k)+x,))(i=1, k='i')", lambda: c1(i=1, k="i")(x=0.),
+             lambda r: list(r.inputs) == ["i"] and not r.output.shape and np.asarray(r.data).tolist() == [1., 3.]),
+            ("two-part Cat('i', (a(i), b(i,j)))(j='i', i='j')", lambda: c2(j="i", i="j"),
+             lambda r: set(r.inputs) == {"i", "j"} and not r.output.shape)):
+        bucket["cases"] += 1
+        try:
+            r = thunk()
+        except DECLINE:
+            continue
+        if not ok(r):
+            bucket["wrong"].insert(0, {"probe": label, "got_inputs": {k: str(v) for k, v in r.inputs.items()},
+                                       "got_output": str(r.output), "python": KF_CAPTURE_PY})
+    bad = bucket["wrong"]
+    ctx.count("known:cat-capture:cases", bucket["cases"])
+    ctx.count("known:cat-capture:wrong", len(bad))
     listed = ctx.known(KF_CAPTURE, reproduced=bool(bad),
-                       what=f"one-part lazily built Cat('i', (g(i,k)+x,)) with sigma renaming k onto 'i' while 'i' is substituted: "
-                            f"eager_cat merges the Cat's axis with the introduced name ({len(bad)}/{known_seen['cases']} cases wrong)")
+                       what="a value substituted below a lazily built Cat mentions the Cat's own name: the eager Cat rules "
+                            "(one-part shortcut, eager_cat_homogeneous) skip Cat.__init__'s `name not in part.inputs` check and "
+                            f"merge the axes ({len(bad)}/{bucket['cases']} region cases wrong)")
     if bad and not listed:
-        ctx.fail("input", "C04.known." + KF_CAPTURE, witness=bad[0],
-                 expected="g[sigma(i), i] (simultaneous; or a decline like the multi-part Cat)", got="diagonal / captured value",
-                 python=KF_CAPTURE_PY)
+        w = dict(bad[0])
+        py = w.pop("python")
+        ctx.fail("input", "C04.known." + KF_CAPTURE, witness=w,
+                 expected="the simultaneous substitution, or a decline (AssertionError) as Cat.__init__ does",
+                 got="captured / malformed result", python=py)
 
 
-KF_CAPTURE = "KF-cat-onepart-capture"
 KF_CAPTURE_PY = PY_HEADER + """g = Tensor(np.array([[4., 5.], [1., 3.]]), OrderedDict(i=Bint[2], k=Bint[2]))
 x = Variable('x', Real)
 with lazy:
     c = Cat('i', (ops.add(g, x),))
+FAILS = False
 try:
     r = c(i=1, k='i')(x=0.)
     print(r)          # expected Tensor([1., 3.], {i}) = g[1, i]; a decline (AssertionError as for two parts) is allowed
     FAILS = not (list(r.inputs) == ['i'] and list(np.asarray(r.data)) == [1., 3.])
 except AssertionError:
-    FAILS = False
+    pass
+with lazy:
+    c2 = Cat('i', (Tensor(np.array([0.]), OrderedDict(i=Bint[1])), Tensor(np.array([[5., -2.]]), OrderedDict(i=Bint[1], j=Bint[2]))))
+try:
+    r2 = c2(j='i', i='j')     # a plain swap
+    print(r2.inputs, r2.output)   # expected inputs {i, j}, output Real
+    FAILS = FAILS or set(r2.inputs) != {'i', 'j'} or bool(r2.output.shape)
+except AssertionError:
+    pass
 """
 
 
@@ -1302,7 +1412,8 @@ def correspond(ctx):
     run_rewritten(ctx)
     run_s3(ctx)
     run_s1(ctx)
-    run_s2(ctx, 700 if ctx.tier == "quick" else 12000)
+    run_s2(ctx, 4000 if ctx.tier == "quick" else 60000)
+    report_capture(ctx)
     ctx.assumptions.append("numpy basic/advanced indexing is modelled by its index-level specification (composition of index functions)")
     ctx.assumptions.append("Gaussian/Delta/Independent/Scatter/MarkovProduct eager_subs are outside the C04 harness (Gaussian: C12; Delta: C14)")
 
